@@ -137,7 +137,10 @@ def make_case(family, i, rng, tier):
     secure = rng.random() < 0.5
     host = rng.choice(['target.test', 'Target.Example.TEST', '10.9.8.7'])
     port = rng.choice([None, None, 80, 443, 8443, 9001])
-    url = '%s://%s%s/%s' % ('wss' if secure else 'ws', host,
+    # (scheme names are case-insensitive, RFC 3986 3.1)
+    url = '%s://%s%s/%s' % (rng.choice(['wss', 'wss', 'wss', 'WSS', 'Wss'])
+                            if secure else
+                            rng.choice(['ws', 'ws', 'ws', 'WS', 'Ws']), host,
                             ':%d' % port if port else '',
                             rng.choice(['', 'chat', 'a/b?x=1']))
     mapping = rng.choice(['empty', 'http', 'https', 'both', 'both',
@@ -239,7 +242,7 @@ def _proxy_reply(case):
 def build(case):
     from six.moves.urllib.parse import urlparse
     u = urlparse(case['url'])
-    secure = u.scheme == 'wss'
+    secure = u.scheme == 'wss'      # (urlparse lower-cases the scheme)
     proxies, env, must = _mapping(case, secure)
     fr = peer.enc_frame(1, b'through')
     hs_reply = S.handshake_steps()[1]
